@@ -2939,6 +2939,12 @@ def groupby_reduce(
         if method == "blockwise" and (mask := groups_ == -1).sum(axis=-1) > 1:
             result = result[..., ~mask]
             groups_ = groups_[..., ~mask]
+        if method == "blockwise" and not pd.Index(groups_).is_unique:
+            raise ValueError(
+                "method='blockwise' requires all members of a group to be in a single block along the reduced axes. "
+                "Rechunk `array` so that block boundaries line up with group boundaries, "
+                "or use method='map-reduce' or method='cohorts'."
+            )
 
         # This reindex also handles bins with no data
         result = reindex_(
